@@ -44,6 +44,15 @@ CHECKS["C13"] = (SEM, "every program AT-MOST-ONE-DEFINITION x EXTRA x USE is run
                  "subset of the fact universe all answer sets of source and result are compared as multisets on voc(P) "
                  "with costs; two known findings are matched by shape matchers", "8/C13")
 
+CHECKS["C05"] = (SEM, "every statement of the normalisation grammar (and pairs with a core) is run through optimize with all traits "
+                 "off; facts over input AND derived predicates; all instances, all answer sets, multiset equality on voc(P) "
+                 "with costs; the known inline_rule defect is matched by a shape matcher", "8/C05")
+CHECKS["C14"] = (SEM, "every statement CONTEXT x BINDERS x 1..2(3)-subset of a 38-literal comparison/aggregate menu is run "
+                 "through optimize(math only) over an integer universe with #const overrides; all instances, all answer "
+                 "sets, multiset equality on voc(P) with costs; two known findings matched by shape matchers", "8/C14")
+CHECKS["C15"] = (SEM, "every program HELPER x aggregate function x USER x declaration is run through optimize(inline only); all "
+                 "instances, all answer sets; set equality of (answer set on IN u OUT, costs)", "8/C15")
+
 ALL = [f"C{i:02d}" for i in range(1, 21)]
 
 
